@@ -22,6 +22,7 @@ void maps_set_max_entries(void *map, __u32 max_entries);
 #define MAPS_INJECT_UPDATE 1
 #define MAPS_INJECT_DELETE 2
 void maps_inject(int kind, int k, int err);
+void maps_inject_call(int k, int err);
 void maps_sched(int k, void (*fn)(void));
 void maps_run_begin(void);
 int maps_run_end(void);
